@@ -11,6 +11,10 @@ import (
 
 // bodyC03 = the shared DAG-family workload + the dry-run part.
 func (f *dagFamily) bodyC03(c *core.Ctx) {
+	if c.Mode == "real" {
+		c03RealBody(c)
+		return
+	}
 	f.body(c)
 	if c.Mode != "controlled" {
 		return
